@@ -349,6 +349,12 @@ func c02Judge(p *prepared, o c02Out, f c02Fault) (sig, detail string) {
 			return "send-success-without-confirmation:" + strings.SplitN(f.Kind, ":", 2)[0], fmt.Sprintf("sender reported success but the receiver confirmed only %d of %d files (%s)", c, files, res)
 		}
 		if diff != "" {
+			if files == 0 && res.RecvErr != nil {
+				// a manifest without files has no confirmation record at all: the sender
+				// cannot learn that the receiver failed (recorded finding; any other tree is
+				// judged by the general signature below)
+				return "send-success-with-wrong-tree:no-files-to-confirm", fmt.Sprintf("manifest without files: sender reported success but the receiver failed and its tree differs: %s (%s)", diff, res)
+			}
 			return "send-success-with-wrong-tree:" + strings.SplitN(f.Kind, ":", 2)[0], fmt.Sprintf("sender reported success but the receiver's tree differs: %s (%s)", diff, res)
 		}
 	}
